@@ -106,6 +106,8 @@ type Runner struct {
 	// StaleReach: a `reach x priv|unk` happened and no depth recomputation since
 	StaleReach bool
 	After      func(ctx *core.Ctx, r *Runner, op []string, out string) // property oracle hook
+	Before     func(ctx *core.Ctx, r *Runner, op []string)             // optional: look at the pre-state
+	Scratch    interface{}                                             // oracle-private data
 
 	db *shed.DB
 }
@@ -260,10 +262,16 @@ func (r *Runner) Counts(known bool) (reach, total [32]int) {
 	return
 }
 
+// SelfPublic is the implementation's own view of the node's reachability status.
+func (r *Runner) SelfPublic() bool { return r.K.Snapshot().Reachability == p2p.ReachabilityStatusPublic.String() }
+
 func (r *Runner) IsStatic(a boson.Address) bool    { return a.MemberOf(r.Static) }
 func (r *Runner) IsProtected(a boson.Address) bool { return a.MemberOf(r.Protect) }
 
 func (r *Runner) Step(ctx *core.Ctx, op []string) string {
+	if r.Before != nil && r.K != nil && len(op) > 0 && op[0] != "init" {
+		r.Before(ctx, r, op)
+	}
 	out := r.step(ctx, op)
 	if r.After != nil && r.K != nil && out != "bad-op" {
 		r.After(ctx, r, op, out)
